@@ -38,6 +38,25 @@ pub fn select(tier: Tier, seed: u64) -> Vec<(String, Spec)> {
         let class2 = format!("[\\x{:02x}-\\x{:02x}\\x{:02x}-\\x{:02x}]y", b + 3, b + 4, b + 6, b + 7);
         v.push((format!("byterange{b}"), Spec::new(false, vec![vcore::spec::Pat::bregex(class.as_bytes()), vcore::spec::Pat::bregex(class2.as_bytes())])));
     }
+    // "every byte but one / but two" classes on a non-looping edge of a state with at most two
+    // out-edges (emitted as a range test plus `!=` exceptions), alone and next to a literal token
+    // that continues with the excluded byte; the ASCII case-folded form has two holes
+    for (k, h) in [0x00u8, b'\n', b'q', 0x40, 0x7f, 0x80, 0xfe, 0xff].into_iter().enumerate() {
+        use vcore::spec::Pat;
+        let one = format!("x[^\\x{h:02x}]y");
+        v.push((format!("bytehole1_{k}"), Spec::new(false, vec![Pat::bregex(one.as_bytes())])));
+        for (j, h2) in [h ^ 0x20, h.wrapping_add(1), h.wrapping_add(2)].into_iter().enumerate() {
+            let two = format!("x[^\\x{h:02x}\\x{h2:02x}]y");
+            v.push((format!("bytehole2_{k}_{j}"), Spec::new(false, vec![Pat::bregex(two.as_bytes())])));
+        }
+        let tok = [b'\\', h];
+        let rest = b"\\\\[\\x00-\\xFF]?".to_vec();
+        v.push((format!("bytehole_tok_{k}"), Spec::new(false, vec![Pat::btoken(&tok), Pat::bregex(&rest)])));
+        let tok2 = [b'$', h, h];
+        v.push((format!("bytehole_tok2_{k}"), Spec::new(false, vec![Pat::btoken(&tok2), Pat::bregex(b"\\$(?s-u:.)?(?s-u:.)?").prio(1), Pat::bregex(b"[a-z]+")])));
+    }
+    v.push(("bytehole_icase".into(), Spec::new(false, vec![vcore::spec::Pat::bregex(b"'[^q]'").icase(), vcore::spec::Pat::bregex(b"[a-zA-Z]+")])));
+    v.push(("bytehole_icase_skip".into(), Spec::new(false, vec![vcore::spec::Pat::skip("<[^a]>").icase(), vcore::spec::Pat::bregex(b"[a-zA-Z<>]")])));
     // a sample of the C10 (literal / ignore(case)) and C11 (subpattern) families, replayed by
     // their own checks on the compiled lexers
     {
